@@ -818,6 +818,10 @@ class PSBT(EmbitBase):
                         "Failed to parse PSBT - duplicated transaction field"
                     )
             elif key == b"\xfb":
+                if version is not None:
+                    raise PSBTError("Duplicated version")
+                if len(value) != 4:
+                    raise PSBTError("Version should be 4 bytes long")
                 version = int.from_bytes(value, "little")
             else:
                 if key in unknown:
@@ -826,6 +830,8 @@ class PSBT(EmbitBase):
 
         if tx and version == 2:
             raise PSBTError("Global TX field is not allowed in PSBTv2")
+        if tx is None and version != 2:
+            raise PSBTError("Global TX field is required in PSBTv0")
         psbt = cls(tx, unknown, version=version)
         # input scopes, in PSBTv2 all transaction fields come from the scope itself
         for i in range(len(psbt.inputs)):
@@ -845,9 +851,16 @@ class PSBT(EmbitBase):
             if k[0] == 0x01:
                 xpub = bip32.HDKey.parse(k[1:])
                 self.xpubs[xpub] = DerivationPath.parse(self.unknown.pop(k))
+            # fields below are defined only in PSBTv2
+            elif self.version != 2:
+                continue
             elif k == b"\x02":
+                if len(self.unknown[k]) != 4:
+                    raise PSBTError("Tx version should be 4 bytes long")
                 self.tx_version = int.from_bytes(self.unknown.pop(k), "little")
             elif k == b"\x03":
+                if len(self.unknown[k]) != 4:
+                    raise PSBTError("Locktime should be 4 bytes long")
                 self.locktime = int.from_bytes(self.unknown.pop(k), "little")
             elif k == b"\x04":
                 if len(self.inputs) > 0:
